@@ -4,3 +4,5 @@
 import PhystGen.StatisticsSrc
 import PhystGen.C14_Source
 import PhystGen.C06_Source
+import PhystGen.ConfigSrc
+import PhystGen.C19_Source
